@@ -37,7 +37,7 @@ COQ_DEPS = ["Corr/EntropyCorr.vo", "Corr/RegenTac.vo"]
 
 
 def extra_obligations(tier):
-    """Second tie (DESIGN 12.8): Step 2 of persistent_entropy.py (lengths, Shannon entropy, normalisation) is re-translated
+    """Second tie (DESIGN 12.7): Step 2 of persistent_entropy.py (lengths, Shannon entropy, normalisation) is re-translated
     from the current source into real-valued Gallina functions that must be provably equal to Model/EntropyM.v's
     `shannon` / `entropy_val`; Step 1 (infinite bars, the list wrapper, the error branches) must still be the modelled text."""
     from .. import src2coq
